@@ -38,10 +38,12 @@ def contracts():
 
 from contracts import native as _n
 _GS = ["Group([T])", "Group({T % 2: [T]})", "Group({T % 3: Max()})", "Group({T % 2: {T % 3: [T]}})", "Group(Avg())", "Group({(lambda x: SKIP if x == 2 else x % 2): [T]})",
-       "Group([lambda x: SKIP if x % 2 else x])", "Group(Limit(2))", "Group({T % 2: Sum()})", "Group(First())", "Group({T % 3: First()})", "Group(Count())", "Group({T % 2: Min()})"]
-_GI = ["[0, 1, 3, 2]", "[]", "[5]", "[1, 2, 3, 4, 5, 6]", "[2, 2, 2]", "3", "range(4)"]
+       "Group([lambda x: SKIP if x % 2 else x])", "Group(Limit(2))", "Group({T % 2: Sum()})", "Group(First())", "Group({T % 3: First()})", "Group(Count())", "Group({T % 2: Min()})", "Group(Max())", "Group({T % 2: Max()})"]
+_GS2 = ["Group([Group(Sum())])", "Group({len: [Group({T % 2: [T]})]})", "Group([Group([T])])", "(Group([Group(Max())]), Group(Sum()))"]
+_GI = ["[0, 1, 3, 2]", "[]", "[5]", "[1, 2, 3, 4, 5, 6]", "[2, 2, 2]", "3", "range(4)", "[-3, 0, -2]", "[-4, 0, -2, -1, -6, -3]", "[3, 0, 4]"]
+_GI2 = ["[[1, 2], [3, 4], [5]]", "[[1], [2, 2]]", "[]"]
 NATIVE = {
-    'grouping.Group.glomit': _n.differ('grouping.Group.glomit', 'ref_reduce.group_glomit_ref', lambda: [(t, g) for t in _GI for g in _GS], mode='method',
+    'grouping.Group.glomit': _n.differ('grouping.Group.glomit', 'ref_reduce.group_glomit_ref', lambda: [(t, g) for t in _GI for g in _GS] + [(t, g) for t in _GI2 for g in _GS2], mode='method',
                                        prelude='from glom.grouping import First, Avg, Max, Min, Limit, Group\nfrom glom.reduction import Count, Sum'),
 }
 
